@@ -122,8 +122,14 @@ def gen(rng, tier, index):
             hist.append(["write", version, pad, dt])
         elif r < 0.55:
             hist.append(["damage", rng.choice(DAMAGES), rng.random()])
-        elif r < 0.72:
+        elif r < 0.65:
             hist.append(["load", rng.randrange(len(SERVER_SEEDS)), [rng.choice(["exit", "exit", "oserror"]), rng.random()]])
+        elif r < 0.74:
+            # a source edit lands DURING the load (after read+compile, before the cache write); it only happens if this
+            # load compiles from source, so it usually follows an edit or a damage
+            version += 1
+            pad = (pad + rng.choice([1, 1, 2, 3])) % 9
+            hist.append(["load", rng.randrange(len(SERVER_SEEDS)), ["edit", version, pad, rng.choice([1, 1, 2, 5, 3600])]])
         else:
             hist.append(["load", rng.randrange(len(SERVER_SEEDS)), None])
     hist.append(["load", rng.randrange(len(SERVER_SEEDS)), None])
@@ -169,7 +175,7 @@ def describe():
                  "mtimes (os.utime with controller-chosen seconds)", "interpreter start (fork of a booted interpreter of "
                  "the chosen hash seed)"],
         "fault_kinds": ["crash_exit_during_cache_write", "oserror_during_cache_write", "damage_truncate", "damage_empty",
-                        "damage_header", "damage_delete", "source_edit", "clock_jump_back", "hash_seed_change"],
+                        "damage_header", "damage_delete", "source_edit", "source_edit_during_load", "clock_jump_back", "hash_seed_change"],
         "assumptions": ["a crash leaves a prefix of the intended bytes (what the property states); reordered or zero-filled "
                         "blocks are not injected", "same-second-same-size source edits are outside the statement",
                         "a load that was itself crashed or given an OSError is not judged, only the loads after it"],
@@ -300,6 +306,13 @@ def _run(workload, scratch):
     log = []
     writer_hs = None          # hash seed of the incarnation that wrote the current cache file
     after_crash = False
+    tampered = False          # the controller changed header fields of the current cache file (damage op)
+    payload_stat = None       # (mtime, size) of the source text the current cache payload was compiled from
+
+    def src_stat():
+        st_ = os.stat(src_path)
+        return (int(st_.st_mtime), st_.st_size)
+
     src_version = None        # version of the source text currently on disk
     payload_version = None    # version the payload of the current cache file was compiled from
 
@@ -337,12 +350,23 @@ def _run(workload, scratch):
                     "empty": "damage_empty", "delete": "damage_delete"}.get(op[1], "damage_header")
             if res not in ("absent", "noop"):
                 fault(kind)
+                if kind == "damage_header":
+                    tampered = True
             log.append(["damage", op[1], res])
             continue
         _, hsi, crash = op
         valid_before, why = _cache_valid(cache_path, src_path)
         req = {"scratch": scratch, "module": MODULE, "ns": NSNAME, "calls": calls, "crash": crash,
                "out": os.path.join(scratch, "rep.json")}
+        edit = None
+        if crash and crash[0] == "edit":
+            _, e_version, e_pad, e_dt = crash
+            e_text = ns_gen.render(desc, e_version).rstrip("\n") + ("\n;" + "p" * e_pad if e_pad else "") + "\n"
+            edit = {"path": src_path, "text": e_text, "mtime": clock + e_dt}
+            req["crash"] = crash = None
+            req["edit_during"] = edit
+            pre_ref = reference(hsi)          # this load compiles the text that is on disk NOW
+        pre_stat = src_stat()
         rep = _incarnate(SERVER_SEEDS[hsi], req)
         extra["incarnations"] += 1
         log.append(["load", SERVER_SEEDS[hsi], crash, {"valid_before": why, "path": rep.get("path"), "ok": rep.get("ok"),
@@ -370,10 +394,13 @@ def _run(workload, scratch):
             for p in path:
                 if p.startswith("cached-failed") and not p.endswith("effects=0"):
                     return R.verdict("violation", f"{ID}/invalid-cache-partly-executed:{why}", det, faults=faults, extra=extra)
-        if used_cache and valid_before and payload_version != src_version:
+        if used_cache and valid_before and payload_version != src_version and (tampered or payload_stat == src_stat()):
             # the controller's own header damage made an OLD payload look current (header mtime/size
-            # happen to equal the edited source's): indistinguishable from the same-second-same-size
-            # edit the statement excludes, so this load is not judged
+            # happen to equal the edited source's), or a later version has exactly the mtime and size of
+            # the version the payload was compiled from: the same-second-same-size edit the statement
+            # excludes, so this load is not judged.  (An old payload under a header that matches a source
+            # with ANOTHER stat, without tampering, is judged: that is what a writer-side stat/read race
+            # produces - seeded change C14-f.)
             extra["coincidental_header_match"] = extra.get("coincidental_header_match", 0) + 1
             continue
         if used_cache:
@@ -385,7 +412,8 @@ def _run(workload, scratch):
             which = "from-cache" if used_cache else "from-source"
             return R.verdict("violation", f"{ID}/effects-not-exactly-once:{which}",
                              dict(det, effects=rep["effects"], expected=nfx), faults=faults, extra=extra)
-        ref = reference(hsi)
+        edited_here = bool(edit and rep.get("edited"))
+        ref = pre_ref if edited_here else reference(hsi)
         if not ref.get("ok"):
             return R.verdict("harness", f"{ID}/harness", {"reference_failed": ref.get("error"), "log": log},
                              faults=faults, extra=extra)
@@ -400,12 +428,27 @@ def _run(workload, scratch):
             return R.verdict("violation", f"{ID}/not-equivalent-to-source:{which}:{kindsig}",
                              dict(det, diff=d, writer_seed=None if writer_hs is None else SERVER_SEEDS[writer_hs],
                                   reader_seed=SERVER_SEEDS[hsi]), faults=faults, extra=extra)
+        if edited_here:
+            # the cache left behind belongs to the text this load compiled, which is no longer the text on disk: it must
+            # be stale for every later load (that is judged there), so "valid cache left behind" does not apply here
+            fault("source_edit_during_load")
+            writer_hs = hsi
+            payload_version = src_version
+            payload_stat = pre_stat
+            src_version = e_version
+            clock += e_dt
+            tampered = False
+            log.append(["edited-during-load", e_version, len(e_text), clock])
+            after_crash = False
+            continue
         valid_after, why_after = _cache_valid(cache_path, src_path)
         if not valid_after:
             return R.verdict("violation", f"{ID}/no-valid-cache-left-behind:{why_after}", det, faults=faults, extra=extra)
         if not used_cache:
             writer_hs = hsi
             payload_version = src_version
+            payload_stat = src_stat()
+            tampered = False
         after_crash = False
     # ---- exhaustive cut points of the final (valid) cache file at the decode layer
     bad = _cut_points(scratch, cache_path, src_path, calls, nfx, faults, extra)
